@@ -1,700 +1,18 @@
 /* C07 - streaming results do not depend on how the caller slices buffers or orders calls.
  * EXPLORE: explicit-state exploration of the real isal_inflate / isal_deflate under all caller
- * behaviours from finite alphabets (DESIGN 2.4, 3 C07). Also serves C10(ii) and C14 via shared code. */
-#include "streams.h"
-#include "explore.h"
-
-static long nfail;
-static char ctxdesc[512];
-
-/* =====================================================================================
- *                                   I N F L A T E
- * ===================================================================================== */
-static struct inflate_state *IST;
-static struct { uint32_t in_off, out_off; int last_ret; int tainted; } ICUR;
-static size_t IHDRLEN; /* > 0: gzip header with optional fields / FHCRC of this many bytes */
-#define KF_GZHDR "isal_inflate: gzip header carrying FEXTRA/FNAME/FCOMMENT/FHCRC split across calls (isal_inflate re-initialises a local isal_gzip_header on every call, losing flags/hcrc/extra_len)"
-static const uint8_t *IS;   /* wrapped stream */
-static size_t ISLEN, ITRUE_END;
-static const uint8_t *IX;
-static size_t IXLEN;
-static int ICRC;
-static const int IA_IN[] = { 0, 1, 2, 3, 4, 7, 8, 9, -1 };
-static const int IA_OUT[] = { 0, 1, 2, 3, 7, 8, 9, 257, 258, 259, 273, 274, 275, -1 };
-#define NIA_IN 9
-#define NIA_OUT 14
-
-static void inf_reset(void)
-{
-	isal_inflate_init(IST);
-	IST->crc_flag = ICRC;
-	memset(&ICUR, 0, sizeof ICUR);
-}
-static void inf_save(uint8_t *d)
-{
-	memcpy(d, IST, sizeof *IST);
-	memcpy(d + sizeof *IST, &ICUR, sizeof ICUR);
-}
-static void inf_restore(const uint8_t *s)
-{
-	memcpy(IST, s, sizeof *IST);
-	memcpy(&ICUR, s + sizeof *IST, sizeof ICUR);
-}
-static void inf_key(uint64_t k[2])
-{
-	static struct inflate_state tmp;
-	size_t head = offsetof(struct inflate_state, tmp_in_buffer);
-	memcpy(&tmp, IST, head);
-	tmp.next_in = NULL;
-	tmp.next_out = NULL;
-	tmp.avail_in = 0;
-	tmp.avail_out = 0;
-	uint64_t a = v_hash(&tmp, head, 1), b = v_hash(&tmp, head, 2);
-	int tis = IST->tmp_in_size > 0 ? IST->tmp_in_size : 0;
-	a = v_mix(a, v_hash(IST->tmp_in_buffer, tis, 3));
-	int tov = IST->tmp_out_valid > 0 ? IST->tmp_out_valid : 0;
-	b = v_mix(b, v_hash(IST->tmp_out_buffer, tov, 4));
-	a = v_mix(a, ICUR.in_off);
-	b = v_mix(b, ICUR.out_off);
-	k[0] = a;
-	k[1] = b;
-}
-static const char *inf_describe(int c)
-{
-	static char s[8][48];
-	static int si;
-	char *o = s[si++ & 7];
-	snprintf(o, 48, "in=%d out=%d", IA_IN[c / NIA_OUT], IA_OUT[c % NIA_OUT]);
-	return o;
-}
-/* one real isal_inflate call offering ci input bytes and co output bytes (-1 = everything / ample) */
-static int inf_call(int ci, int co, const struct ex_model *m)
-{
-	char key[600];
-	size_t rem_in = ISLEN - ICUR.in_off;
-	size_t k = ci < 0 || (size_t)ci > rem_in ? rem_in : (size_t)ci;
-	size_t cap = co < 0 ? IXLEN - ICUR.out_off + 64 : (size_t)co;
-	if (IHDRLEN && ICUR.in_off < IHDRLEN && ICUR.in_off + k < IHDRLEN && (ICUR.in_off + k) > 0)
-		ICUR.tainted = 1; /* this history splits a rich gzip header across calls: known finding, see known_findings.txt */
-	uint8_t *in = g_alloc(k, G_END), *out = g_alloc(cap, G_END);
-	memcpy(in, IS + ICUR.in_off, k);
-	IST->next_in = in;
-	IST->avail_in = (uint32_t)k;
-	IST->next_out = out;
-	IST->avail_out = (uint32_t)cap;
-	uint32_t total_before = IST->total_out;
-	int ret;
-	snprintf(key, sizeof key, "inflate %s", ctxdesc);
-	if (ICUR.tainted)
-		snprintf(key, sizeof key, "%s", KF_GZHDR);
-	if (V_TRY()) {
-		ret = isal_inflate(IST);
-		V_END();
-	} else {
-		v_violation(key, "fault at %s addr=%p (%s) after schedule [%s]", v_sym(v_fault_rip), (void *)v_fault_addr, v_fault_write ? "write" : "read", m ? ex_path_str(m) : "");
-		g_reset();
-		nfail += !ICUR.tainted;
-		return EX_VIOLATION;
-	}
-	size_t consumed = k - IST->avail_in, produced = cap - IST->avail_out;
-	int bad = 0;
-	if (IST->avail_in > k || IST->avail_out > cap || IST->next_in != in + consumed || IST->next_out != out + produced) {
-		v_violation(key, "pointer/count bookkeeping inconsistent: avail_in %u of %zu, avail_out %u of %zu; schedule [%s]", IST->avail_in, k, IST->avail_out, cap, m ? ex_path_str(m) : "");
-		bad = 1;
-	} else if (IST->total_out - total_before != produced) {
-		v_violation(key, "total_out advanced by %u but %zu bytes were written; schedule [%s]", IST->total_out - total_before, produced, m ? ex_path_str(m) : "");
-		bad = 1;
-	} else if (ICUR.out_off + produced > IXLEN || memcmp(out, IX + ICUR.out_off, produced)) {
-		v_violation(key, "output deviates from the one-shot result at offset %u (+%zu); schedule [%s]", ICUR.out_off, produced, m ? ex_path_str(m) : "");
-		bad = 1;
-	} else if (ret != ISAL_DECOMP_OK) {
-		v_violation(key, "isal_inflate returned %d on a valid stream; schedule [%s]", ret, m ? ex_path_str(m) : "");
-		bad = 1;
-	}
-	if (!bad && g_check()) {
-		v_violation(key, "%s; schedule [%s]", g_last_damage(), m ? ex_path_str(m) : "");
-		bad = 1;
-	}
-	g_reset();
-	if (bad) {
-		nfail += !ICUR.tainted;
-		return EX_VIOLATION;
-	}
-	ICUR.in_off += consumed;
-	ICUR.out_off += produced;
-	ICUR.last_ret = ret;
-	if (IST->block_state == ISAL_BLOCK_FINISH) {
-		size_t pos = ICUR.in_off - (IST->read_in_length > 0 ? IST->read_in_length / 8 : 0);
-		if (ICUR.out_off != IXLEN || pos != ITRUE_END) {
-			v_violation(key, "FINISH with %u of %zu output bytes, input position %zu (stream ends at %zu); schedule [%s]", ICUR.out_off, IXLEN, pos, ITRUE_END, m ? ex_path_str(m) : "");
-			nfail += !ICUR.tainted;
-			return EX_VIOLATION;
-		}
-		if (ICRC) {
-			int gz = ICRC == ISAL_GZIP || ICRC == ISAL_GZIP_NO_HDR || ICRC == ISAL_GZIP_NO_HDR_VER;
-			uint32_t want = gz ? ri_crc32(0, IX, IXLEN) : ri_adler32(1, IX, IXLEN);
-			if (IST->crc != want) {
-				v_violation(key, "state.crc %08x != %08x at FINISH; schedule [%s]", IST->crc, want, m ? ex_path_str(m) : "");
-				nfail += !ICUR.tainted;
-				return EX_VIOLATION;
-			}
-		}
-		v_outcome(v_mix(IST->crc, ICUR.out_off));
-		return EX_TERMINAL;
-	}
-	return EX_NEXT;
-}
-static const struct ex_model inf_model;
-static int inf_step(int c) { return inf_call(IA_IN[c / NIA_OUT], IA_OUT[c % NIA_OUT], &inf_model); }
-/* progress: from the current state, generous calls must reach FINISH within a small horizon */
-static int inf_finish_generously(const struct ex_model *m, int horizon)
-{
-	for (int i = 0; i < horizon; i++) {
-		uint32_t io = ICUR.in_off, oo = ICUR.out_off;
-		int bs = IST->block_state;
-		int r = inf_call(-1, -1, m);
-		if (r == EX_TERMINAL)
-			return 0;
-		if (r == EX_VIOLATION)
-			return -1;
-		if (ICUR.in_off == io && ICUR.out_off == oo && (int)IST->block_state == bs) {
-			char key[600];
-			snprintf(key, sizeof key, "inflate no-progress %s", ctxdesc);
-			if (ICUR.tainted)
-				snprintf(key, sizeof key, "%s", KF_GZHDR);
-			v_violation(key, "all remaining input (%zu bytes) and ample output offered, nothing consumed or produced, state %d unchanged; reached by [%s]",
-				    ISLEN - ICUR.in_off, bs, m ? ex_path_str(m) : "");
-			nfail += !ICUR.tainted;
-			return -1;
-		}
-	}
-	char key[600];
-	snprintf(key, sizeof key, "inflate horizon %s", ctxdesc);
-	if (ICUR.tainted)
-		snprintf(key, sizeof key, "%s", KF_GZHDR);
-	v_violation(key, "FINISH not reached within %d generous calls; reached by [%s]", horizon, m ? ex_path_str(m) : "");
-	nfail += !ICUR.tainted;
-	return -1;
-}
-static uint8_t *inf_tmpimg;
-static void inf_on_state(int depth)
-{
-	(void)depth;
-	if (!inf_tmpimg)
-		inf_tmpimg = malloc(sizeof *IST + sizeof ICUR);
-	inf_save(inf_tmpimg);
-	inf_finish_generously(&inf_model, 6);
-	inf_restore(inf_tmpimg);
-	v_count("progress_checks", 1);
-}
-static const struct ex_model inf_model = { sizeof(struct inflate_state) + sizeof ICUR, inf_save, inf_restore, inf_key, NIA_IN *NIA_OUT, inf_step, inf_on_state, inf_describe, NULL };
-
-struct ostream { uint8_t *s; size_t slen, true_end, hdrlen; uint8_t *x; size_t xlen; int crc_flag; char desc[240]; };
-static struct ostream *OS;
-static int nOS, capOS;
-static int collect_mode; /* wrapper mode used when collecting */
-static size_t collect_max_s, collect_min_s;
-static uint64_t collect_ctr, collect_every;
-static uint8_t *wrapbuf;
-static const uint8_t gz_extra[5] = { 'a', 'p', 1, 0, 'X' };
-static const struct rh_gzip rich_hdr = { 1, 0x01020304, 2, 3, gz_extra, 5, "file.name", "a comment", 1 };
-
-static void collect_cb(const struct gstream *g, void *ctx)
-{
-	(void)ctx;
-	if (g->blen > collect_max_s || g->blen < collect_min_s)
-		return;
-	if (collect_every && (collect_ctr++ % collect_every))
-		return;
-	struct ri_opts o;
-	memset(&o, 0, sizeof o);
-	static struct ri_result rr;
-	static uint8_t *tmp;
-	if (!tmp)
-		tmp = malloc(GS_MAXOUT);
-	rr.out = tmp;
-	rr.out_cap = GS_MAXOUT;
-	ref_inflate(g->body, g->blen, &o, &rr);
-	if (rr.verdict != RI_VALID || rr.out_len != g->xlen || memcmp(tmp, g->x, g->xlen))
-		v_broken("reference gate failed for '%s'", g->desc);
-	static const int modes[] = { ISAL_DEFLATE, ISAL_GZIP, ISAL_ZLIB, ISAL_GZIP_NO_HDR_VER, ISAL_ZLIB_NO_HDR };
-	int mode = modes[(nOS + collect_mode) % 5];
-	if (nOS >= capOS) {
-		capOS = capOS ? capOS * 2 : 64;
-		OS = realloc(OS, capOS * sizeof *OS);
-	}
-	struct ostream *s = &OS[nOS++];
-	size_t te;
-	size_t wl = wrap_stream(mode, g->body, (rr.end_bit + 7) / 8, rr.end_bit, g->x, g->xlen, mode == ISAL_GZIP && (nOS % 2) ? &rich_hdr : NULL, wrapbuf, &te);
-	/* the streaming API is given exactly the stream (no junk): trailers of the non-verifying NO_HDR modes stay unread */
-	if (mode == ISAL_ZLIB_NO_HDR)
-		wl = te;
-	s->s = malloc(wl + 1);
-	memcpy(s->s, wrapbuf, wl);
-	s->slen = wl;
-	s->true_end = te;
-	s->x = malloc(g->xlen + 1);
-	memcpy(s->x, g->x, g->xlen);
-	s->xlen = g->xlen;
-	s->crc_flag = mode;
-	s->hdrlen = 0;
-	if (mode == ISAL_GZIP && (nOS % 2)) {
-		uint8_t hb[512];
-		s->hdrlen = rh_gzip_write(hb, &rich_hdr);
-	}
-	snprintf(s->desc, sizeof s->desc, "%s mode=%s%s", g->desc, cf_name[mode], mode == ISAL_GZIP && (nOS % 2) ? "+rich-header" : "");
-}
-static int all_mine(uint64_t id) { (void)id; return 1; }
-
-static void inf_select(const struct ostream *s, int cpu)
-{
-	IS = s->s; ISLEN = s->slen; ITRUE_END = s->true_end; IX = s->x; IXLEN = s->xlen; ICRC = s->crc_flag; IHDRLEN = s->hdrlen;
-	snprintf(ctxdesc, sizeof ctxdesc, "%s cpu=%s", s->desc, cpu_level_name[cpu]);
-	cpu_set_level(cpu);
-}
-
-static void inflate_part(void)
-{
-	static const int cpus[] = { CPU_BASE, CPU_SSE, CPU_AVX2 };
-	IST = g_persist(sizeof *IST, G_END);
-	wrapbuf = malloc(GS_MAXBODY + 4096);
-	uint64_t idx = 0;
-	/* ---- streams for the free-schedule layer: short members of the grammar closure ---- */
-	collect_max_s = v_thorough ? 300 : 64;
-	collect_min_s = 0;
-	collect_every = v_thorough ? 29 : 9;
-	gs_family_shapes(all_mine, &idx, collect_cb, NULL);
-	collect_every = v_thorough ? 67 : 19;
-	gs_family_tokens(2, 1, all_mine, &idx, collect_cb, NULL);
-	int nshort = nOS;
-	/* ---- longer streams for layers 1 and 2 ---- */
-	collect_max_s = GS_MAXBODY;
-	collect_min_s = 65;
-	collect_every = v_thorough ? 11 : 19;
-	gs_family_shapes(all_mine, &idx, collect_cb, NULL);
-	collect_every = v_thorough ? 400 : 900;
-	collect_min_s = 300;
-	gs_family_matches(0, all_mine, &idx, collect_cb, NULL);
-	collect_every = v_thorough ? 150 : 400;
-	gs_family_zlib(0, all_mine, &idx, collect_cb, NULL);
-	v_count("inflate_streams_short", nshort);
-	v_count("inflate_streams_long", nOS - nshort);
-	uint64_t unit = 0;
-	/* ---- layer 3: all call histories over the alphabets (explicit-state, deduplicated) ---- */
-	for (int si = 0; si < nshort; si++)
-		for (int ci = 0; ci < 3; ci++) {
-			if (!v_mine(unit++))
-				continue;
-			if (nfail > 20 || v_deadline_hit())
-				return;
-			inf_select(&OS[si], cpus[ci]);
-			g_strict_free = 1;
-			inf_reset();
-			struct ex_stats st = { 0 };
-			ex_run(&inf_model, &st, v_thorough ? 3000000 : 400000);
-			g_strict_free = 0;
-			v_count("states", st.states);
-			v_count("transitions", st.transitions);
-			v_count("traces_validated_against_impl", st.terminals);
-			v_count("inflate_graphs", 1);
-			v_count("dedup_hits", st.dedup_hits);
-			v_max("max_depth", st.max_depth);
-			if (st.capped) {
-				v_count("graphs_capped", 1);
-				v_not_exhaustive("an inflate state graph hit its state cap or the deadline");
-			}
-			v_nontrivial(v_hash(ctxdesc, strlen(ctxdesc), 9));
-			v_eval_n(st.transitions);
-			if (st.states > 2000 && si % 7 == 0)
-				v_sample("inflate graph %s: %llu states %llu transitions %llu terminal paths max depth %llu", ctxdesc, (unsigned long long)st.states,
-					 (unsigned long long)st.transitions, (unsigned long long)st.terminals, (unsigned long long)st.max_depth);
-		}
-	/* ---- layers 1 and 2 on every stream (short and long) ---- */
-	for (int si = 0; si < nOS; si++)
-		for (int ci = 0; ci < 3; ci++) {
-			if (!v_mine(unit++))
-				continue;
-			if (nfail > 20 || v_deadline_hit())
-				return;
-			inf_select(&OS[si], cpus[ci]);
-			g_strict_free = 1;
-			/* layer 1: every single split of the input x every single split of the output space, then generous calls */
-			size_t S = ISLEN, N = IXLEN;
-			for (size_t a = 0; a <= S; a++) {
-				if (S > 600 && !(a <= 24 || S - a <= 24 || a % 997 == 0 || (a >= 65530 && a <= 65560)))
-					continue;
-				for (size_t o = 0; o <= N; o++) {
-					if (N > 600 && !(o <= 20 || N - o <= 20 || (o >= 256 && o <= 276) || o % 4099 == 0 || (o >= 32766 && o <= 32770) || (o >= 65534 && o <= 65538)))
-						continue;
-					if (S * N > 90000 && a > 24 && o > 20 && (a * 31 + o) % 7)
-						continue;
-					inf_reset();
-					ex_depth = 0;
-					int r = inf_call((int)a, (int)o, NULL);
-					if (r == EX_NEXT)
-						r = inf_finish_generously(NULL, 8);
-					v_count("layer1_single_split_runs", 1);
-					v_eval();
-					if ((r == EX_VIOLATION || r < 0) && !ICUR.tainted) {
-						char key[600];
-						snprintf(key, sizeof key, "inflate layer1 %s", ctxdesc);
-						v_violation(key, "first call with %zu input bytes and %zu output bytes, then generous calls", a, o);
-						if (nfail > 20)
-							return;
-					}
-				}
-			}
-			/* layer 2: uniform (c_in, c_out) on every call */
-			for (int ia = 1; ia < NIA_IN; ia++)
-				for (int oa = 1; oa < NIA_OUT; oa++) {
-					if ((S + N) / 2 > 20000 && (IA_IN[ia] >= 0 && IA_IN[ia] < 7) && (IA_OUT[oa] >= 0 && IA_OUT[oa] < 257))
-						continue; /* tiny x tiny chunks on long streams: quadratic, skipped (covered on short ones) */
-					inf_reset();
-					int r = EX_NEXT, guard = 0;
-					while (r == EX_NEXT && guard++ < 400000) {
-						uint32_t io = ICUR.in_off, oo = ICUR.out_off;
-						int bs = IST->block_state;
-						r = inf_call(IA_IN[ia], IA_OUT[oa], NULL);
-						if (r == EX_NEXT && io == ICUR.in_off && oo == ICUR.out_off && bs == (int)IST->block_state) {
-							char key[600];
-							snprintf(key, sizeof key, "inflate layer2 no-progress %s", ctxdesc);
-							v_violation(key, "uniform chunks in=%d out=%d: a call changed nothing at in=%u out=%u state=%d", IA_IN[ia], IA_OUT[oa], io, oo, bs);
-							nfail++;
-							break;
-						}
-					}
-					v_count("layer2_uniform_runs", 1);
-					v_eval();
-				}
-			g_strict_free = 0;
-			v_nontrivial(v_hash(ctxdesc, strlen(ctxdesc), 10));
-		}
-}
-
-/* =====================================================================================
- *                                   D E F L A T E
- * ===================================================================================== */
-static struct isal_zstream *DST;
-static uint8_t *DLB;
-static uint32_t DLBS;
-#define DOUT_MAX 3000
-static struct dcur { uint32_t in_off, out_len, flush_budget, zero_budget; uint8_t eos_announced, pad[3]; uint32_t nflush; uint32_t flush_at[8], flush_kind[8], flush_in[8]; uint8_t out[DOUT_MAX]; } DCUR;
-static const uint8_t *DIN;
-static size_t DINLEN;
-static int DLEVEL, DGZ;
-static const int DA_IN[] = { 0, 1, 2, 7, 8, 9, -1 };
-static const int DA_OUT[] = { 0, 1, 2, 7, 8, 9, 15, 16, 17, -1 };
-#define NDA_IN 7
-#define NDA_OUT 10
-/* choice = ((ia * NDA_OUT + oa) * 3 + flush) * 2 + eos_timing */
-#define NDCHOICE (NDA_IN * NDA_OUT * 3 * 2)
-
-static void def_reset(int flush_budget)
-{
-	isal_deflate_init(DST);
-	DST->level = DLEVEL;
-	DST->level_buf = DLEVEL ? DLB : NULL;
-	DST->level_buf_size = DLEVEL ? DLBS : 0;
-	DST->gzip_flag = DGZ;
-	memset(&DCUR, 0, offsetof(struct dcur, out));
-	DCUR.flush_budget = flush_budget;
-	DCUR.zero_budget = 2;
-}
-static size_t def_img_size(void) { return sizeof *DST + DLBS + sizeof DCUR; }
-static void def_save(uint8_t *d)
-{
-	memcpy(d, DST, sizeof *DST);
-	memcpy(d + sizeof *DST, DLB, DLBS);
-	memcpy(d + sizeof *DST + DLBS, &DCUR, offsetof(struct dcur, out) + DCUR.out_len);
-}
-static void def_restore(const uint8_t *s)
-{
-	memcpy(DST, s, sizeof *DST);
-	memcpy(DLB, s + sizeof *DST, DLBS);
-	memcpy(&DCUR, s + sizeof *DST + DLBS, offsetof(struct dcur, out));
-	memcpy(DCUR.out, s + sizeof *DST + DLBS + offsetof(struct dcur, out), DCUR.out_len);
-}
-static void def_key(uint64_t k[2])
-{
-	static struct isal_zstream tmp;
-	size_t head = offsetof(struct isal_zstream, internal_state) + offsetof(struct isal_zstate, buffer);
-	memcpy(&tmp, DST, head);
-	tmp.next_in = NULL; tmp.next_out = NULL; tmp.avail_in = 0; tmp.avail_out = 0;
-	tmp.end_of_stream = 0; tmp.flush = 0; /* per-call inputs chosen afresh by the caller */
-	tmp.internal_state.bitbuf.m_out_buf = tmp.internal_state.bitbuf.m_out_end = tmp.internal_state.bitbuf.m_out_start = NULL;
-	struct isal_zstate *zs = &DST->internal_state;
-	uint32_t te = zs->tmp_out_end <= 16 ? zs->tmp_out_end : 16;
-	memset(tmp.internal_state.tmp_out_buff + te, 0, 16 - te);
-	uint64_t a = v_hash(&tmp, head, 11), b = v_hash(&tmp, head, 12);
-	uint32_t bv = zs->b_bytes_valid <= sizeof zs->buffer ? zs->b_bytes_valid : sizeof zs->buffer;
-	a = v_mix(a, v_hash(zs->buffer, bv, 13));
-	b = v_mix(b, v_hash(zs->head, sizeof zs->head, 14));
-	if (DLEVEL)
-		a = v_mix(a, v_hash(DLB, DLBS, 15));
-	a = v_mix(a, v_hash(&DCUR, offsetof(struct dcur, out), 16));
-	b = v_mix(b, v_hash(DCUR.out, DCUR.out_len, 17));
-	k[0] = a;
-	k[1] = b;
-}
-static const char *def_describe(int c)
-{
-	static char s[8][64];
-	static int si;
-	char *o = s[si++ & 7];
-	int et = c & 1, fl = (c >> 1) % 3, io = (c >> 1) / 3;
-	snprintf(o, 64, "in=%d out=%d %s%s", DA_IN[io / NDA_OUT], DA_OUT[io % NDA_OUT], flush_name[fl], et ? " eos-late" : "");
-	return o;
-}
-static struct ex_model def_model;
-static int def_verify_final(const struct ex_model *m, const char *what);
-
-/* one real isal_deflate call. ci/co: -1 = everything / ample. eos_late: do not announce end_of_stream together with the last bytes */
-static int def_call(int ci, int co, int flush, int eos_late, const struct ex_model *m)
-{
-	char key[600];
-	snprintf(key, sizeof key, "deflate %s", ctxdesc);
-	size_t rem = DINLEN - DCUR.in_off;
-	size_t k = ci < 0 || (size_t)ci > rem ? rem : (size_t)ci;
-	size_t cap = co < 0 ? 2 * DINLEN + 600 : (size_t)co;
-	if (DCUR.out_len + cap > DOUT_MAX)
-		cap = DOUT_MAX > DCUR.out_len ? DOUT_MAX - DCUR.out_len : 0;
-	if (DCUR.eos_announced) {
-		/* contract: end_of_stream was announced with the last buffer; until it is consumed the caller keeps presenting
-		 * ALL remaining bytes with the flag set (presenting less while claiming end-of-stream would be a caller error) */
-		if (ci >= 0 || eos_late)
-			return EX_SKIP;
-		k = rem;
-	}
-	int last = DCUR.in_off + k == DINLEN;
-	int eos = last && (DCUR.eos_announced || !eos_late);
-	if (flush != NO_FLUSH) {
-		if (!DCUR.flush_budget)
-			return EX_SKIP;
-	}
-	uint8_t *in = g_alloc(k, G_END), *out = g_alloc(cap, G_END);
-	memcpy(in, DIN + DCUR.in_off, k);
-	DST->next_in = in;
-	DST->avail_in = (uint32_t)k;
-	DST->next_out = out;
-	DST->avail_out = (uint32_t)cap;
-	DST->end_of_stream = eos;
-	DST->flush = flush;
-	uint32_t tin = DST->total_in, tout = DST->total_out;
-	int st_before = DST->internal_state.state;
-	int ret;
-	if (V_TRY()) {
-		ret = isal_deflate(DST);
-		V_END();
-	} else {
-		v_violation(key, "fault at %s addr=%p (%s) after schedule [%s]", v_sym(v_fault_rip), (void *)v_fault_addr, v_fault_write ? "write" : "read", m ? ex_path_str(m) : "");
-		g_reset();
-		nfail++;
-		return EX_VIOLATION;
-	}
-	size_t consumed = k - DST->avail_in, produced = cap - DST->avail_out;
-	int bad = 0;
-	if (ret != COMP_OK) {
-		v_violation(key, "isal_deflate returned %d; schedule [%s]", ret, m ? ex_path_str(m) : "");
-		bad = 1;
-	} else if (DST->avail_in > k || DST->avail_out > cap || DST->next_in != in + consumed || DST->next_out != out + produced || DST->total_in - tin != consumed ||
-		   DST->total_out - tout != produced) {
-		v_violation(key, "bookkeeping: consumed %zu (total_in +%u) produced %zu (total_out +%u); schedule [%s]", consumed, DST->total_in - tin, produced, DST->total_out - tout,
-			    m ? ex_path_str(m) : "");
-		bad = 1;
-	}
-	if (!bad && g_check()) {
-		v_violation(key, "%s; schedule [%s]", g_last_damage(), m ? ex_path_str(m) : "");
-		bad = 1;
-	}
-	if (!bad)
-		memcpy(DCUR.out + DCUR.out_len, out, produced);
-	g_reset();
-	if (bad) {
-		nfail++;
-		return EX_VIOLATION;
-	}
-	DCUR.in_off += consumed;
-	DCUR.out_len += produced;
-	if (eos)
-		DCUR.eos_announced = 1;
-	if (flush != NO_FLUSH)
-		DCUR.flush_budget--;
-	/* C14: a flush point is a SYNC/FULL call returning with all input consumed and output space left */
-	if (flush != NO_FLUSH && DST->avail_in == 0 && DST->avail_out > 0 && DST->internal_state.state != ZSTATE_END && DCUR.nflush < 8) {
-		DCUR.flush_at[DCUR.nflush] = DCUR.out_len;
-		DCUR.flush_kind[DCUR.nflush] = flush;
-		DCUR.flush_in[DCUR.nflush] = DCUR.in_off;
-		DCUR.nflush++;
-		if (def_verify_final(m, "flush-point"))
-			return EX_VIOLATION;
-	}
-	if (DST->internal_state.state == ZSTATE_END) {
-		if (def_verify_final(m, "end"))
-			return EX_VIOLATION;
-		return EX_TERMINAL;
-	}
-	if (consumed == 0 && produced == 0 && (int)DST->internal_state.state == st_before) {
-		if (!DCUR.zero_budget)
-			return EX_SKIP; /* horizon for consecutive empty calls: keeps the graph finite */
-		DCUR.zero_budget--;
-	} else
-		DCUR.zero_budget = 2;
-	if (DCUR.out_len >= DOUT_MAX) {
-		v_violation(key, "output exceeded %d bytes for a %zu-byte input; schedule [%s]", DOUT_MAX, DINLEN, m ? ex_path_str(m) : "");
-		nfail++;
-		return EX_VIOLATION;
-	}
-	return EX_NEXT;
-}
-static int def_skip(const uint8_t *img, int c)
-{
-	const struct dcur *cur = (const struct dcur *)(img + sizeof *DST + DLBS);
-	int et = c & 1, fl = (c >> 1) % 3, io = (c >> 1) / 3;
-	if (fl != NO_FLUSH && !cur->flush_budget)
-		return 1;
-	if (cur->eos_announced && (DA_IN[io / NDA_OUT] >= 0 || et))
-		return 1;
-	return 0;
-}
-static int def_step(int c)
-{
-	int et = c & 1, fl = (c >> 1) % 3, io = (c >> 1) / 3;
-	return def_call(DA_IN[io / NDA_OUT], DA_OUT[io % NDA_OUT], fl, et, &def_model);
-}
-/* oracle: at END the whole output decodes (ref + zlib) to the whole input; at a flush point the prefix decodes to the input
- * handed over so far, ends with 00 00 FF FF on a byte boundary; FULL flush suffixes decode on their own. returns 1 on violation */
-static int def_verify_final(const struct ex_model *m, const char *what)
-{
-	char key[600], why[300];
-	snprintf(key, sizeof key, "deflate %s %s", what, ctxdesc);
-	/* identical (output bytes, input consumed, flush record) were already verified in this graph: skip the decoders */
-	{
-		static struct ex_kset vdone;
-		static char vctx[512];
-		if (strcmp(vctx, ctxdesc)) {
-			ex_kfree(&vdone);
-			snprintf(vctx, sizeof vctx, "%s", ctxdesc);
-		}
-		uint64_t k[2] = { v_hash(DCUR.out, DCUR.out_len, what[0]), v_hash(&DCUR, offsetof(struct dcur, out), 77) ^ (uint64_t)DST->internal_state.state };
-		if (!ex_kadd(&vdone, k)) {
-			v_count("verifications_cached", 1);
-			return 0;
-		}
-	}
-	if (!strcmp(what, "end")) {
-		if (DCUR.in_off != DINLEN) {
-			v_violation(key, "ZSTATE_END with %u of %zu input bytes consumed; schedule [%s]", DCUR.in_off, DINLEN, m ? ex_path_str(m) : "");
-			nfail++;
-			return 1;
-		}
-		if (!verify_deflate_output(DCUR.out, DCUR.out_len, DGZ, DIN, DINLEN, 0, 0, NULL, 0, why, sizeof why) ||
-		    !verify_with_zlib(DCUR.out, DCUR.out_len, DGZ, DIN, DINLEN, why, sizeof why)) {
-			v_violation(key, "%s; stream=%s; schedule [%s]", why, v_hex(DCUR.out, DCUR.out_len), m ? ex_path_str(m) : "");
-			nfail++;
-			return 1;
-		}
-		v_outcome(v_hash(DCUR.out, DCUR.out_len, 5));
-		/* FULL flush independence: each suffix starting at a completed full-flush point decodes with an EMPTY window */
-		for (uint32_t i = 0; i < DCUR.nflush; i++) {
-			if (DCUR.flush_kind[i] != FULL_FLUSH)
-				continue;
-			size_t trail = DGZ == IGZIP_GZIP || DGZ == IGZIP_GZIP_NO_HDR ? 8 : DGZ == IGZIP_ZLIB || DGZ == IGZIP_ZLIB_NO_HDR ? 4 : 0;
-			struct ri_opts o;
-			memset(&o, 0, sizeof o);
-			vs_need(DINLEN + 64);
-			vs_res.out = vs_buf;
-			vs_res.out_cap = DINLEN + 64;
-			ref_inflate(DCUR.out + DCUR.flush_at[i], DCUR.out_len - trail - DCUR.flush_at[i], &o, &vs_res);
-			size_t want = DINLEN - DCUR.flush_in[i];
-			if (vs_res.verdict != RI_VALID || vs_res.out_len != want || memcmp(vs_buf, DIN + DCUR.flush_in[i], want)) {
-				v_violation(key, "C14: suffix after the FULL flush at output offset %u does not decode on its own (%s %s); schedule [%s]", DCUR.flush_at[i],
-					    vs_res.verdict == RI_INVALID ? ri_class_name(vs_res.cls) : "wrong data", vs_res.why ? vs_res.why : "", m ? ex_path_str(m) : "");
-				nfail++;
-				return 1;
-			}
-			v_count("full_flush_suffixes_decoded", 1);
-		}
-		return 0;
-	}
-	/* flush point */
-	size_t hdr = 0;
-	uint32_t n = DCUR.out_len;
-	if (n < 4 || DCUR.out[n - 4] != 0 || DCUR.out[n - 3] != 0 || DCUR.out[n - 2] != 0xff || DCUR.out[n - 1] != 0xff) {
-		v_violation(key, "C14: output at a flush point does not end with 00 00 FF FF: ...%s; schedule [%s]", v_hex(DCUR.out + (n > 8 ? n - 8 : 0), n > 8 ? 8 : n), m ? ex_path_str(m) : "");
-		nfail++;
-		return 1;
-	}
-	(void)hdr;
-	if (!verify_deflate_output(DCUR.out, DCUR.out_len, DGZ == IGZIP_GZIP_NO_HDR || DGZ == IGZIP_ZLIB_NO_HDR ? IGZIP_DEFLATE : DGZ, DIN, DCUR.in_off, 1, 0, NULL, 0, why, sizeof why)) {
-		v_violation(key, "C14: prefix at a flush point: %s; schedule [%s]", why, m ? ex_path_str(m) : "");
-		nfail++;
-		return 1;
-	}
-	if (DST->internal_state.state != ZSTATE_NEW_HDR) {
-		v_violation(key, "C14: state %d after a completed flush (ZSTATE_NEW_HDR documented); schedule [%s]", DST->internal_state.state, m ? ex_path_str(m) : "");
-		nfail++;
-		return 1;
-	}
-	v_count("flush_points_checked", 1);
-	return 0;
-}
-static int def_finish_generously(const struct ex_model *m, int horizon)
-{
-	for (int i = 0; i < horizon; i++) {
-		uint32_t io = DCUR.in_off, oo = DCUR.out_len;
-		int st = DST->internal_state.state;
-		DCUR.flush_budget += 0;
-		int r = def_call(-1, -1, NO_FLUSH, 0, m);
-		if (r == EX_TERMINAL)
-			return 0;
-		if (r == EX_VIOLATION)
-			return -1;
-		if (DCUR.in_off == io && DCUR.out_len == oo && (int)DST->internal_state.state == st) {
-			char key[600];
-			snprintf(key, sizeof key, "deflate no-progress %s", ctxdesc);
-			v_violation(key, "end_of_stream set, all input and ample output offered, nothing happened in state %d; reached by [%s]", st, m ? ex_path_str(m) : "");
-			nfail++;
-			return -1;
-		}
-	}
-	char key[600];
-	snprintf(key, sizeof key, "deflate horizon %s", ctxdesc);
-	v_violation(key, "ZSTATE_END not reached within %d generous calls; reached by [%s]", horizon, m ? ex_path_str(m) : "");
-	nfail++;
-	return -1;
-}
-static uint8_t *def_tmpimg;
-static size_t def_tmpcap;
-static void def_on_state(int depth)
-{
-	(void)depth;
-	if (def_tmpcap < def_img_size()) {
-		def_tmpcap = def_img_size();
-		def_tmpimg = realloc(def_tmpimg, def_tmpcap);
-	}
-	def_save(def_tmpimg);
-	def_finish_generously(&def_model, 8);
-	def_restore(def_tmpimg);
-	v_count("progress_checks", 1);
-}
-static int def_skip(const uint8_t *img, int c);
-static struct ex_model def_model = { 0, def_save, def_restore, def_key, NDCHOICE, def_step, def_on_state, def_describe, def_skip };
+ * behaviours from finite alphabets (DESIGN 2.4, 3 C07). */
+#include "stream_explore.h"
 
 static void deflate_part(void)
 {
-	static uint8_t in17[17], abc18[] = "abcabcabcabcabcabc";
-	fill_xorshift(in17, 17, 5);
-	static const struct { const char *name; const uint8_t *p; int len; } din[] = {
-		{ "empty", (const uint8_t *)"", 0 }, { "a", (const uint8_t *)"a", 1 }, { "abcab", (const uint8_t *)"abcab", 5 }, { "a*9", (const uint8_t *)"aaaaaaaaa", 9 },
-		{ "00*9", (const uint8_t *)"\0\0\0\0\0\0\0\0\0", 9 }, { "00*8+a", (const uint8_t *)"\0\0\0\0\0\0\0\0a", 9 }, { "xorshift17", in17, 17 }, { "abc*6", abc18, 18 } };
 	static const int cpus_q[] = { CPU_BASE, CPU_AVX2, CPU_AVX512G2 };
 	static const int gzs_q[] = { IGZIP_DEFLATE, IGZIP_GZIP }, gzs_t[] = { IGZIP_DEFLATE, IGZIP_GZIP, IGZIP_ZLIB };
-	DST = g_persist(sizeof *DST, G_END);
-	DLB = g_persist(ISAL_DEF_LVL3_MIN, G_END);
+	fill_xorshift(se_in17, 17, 5);
 	uint64_t unit = 0;
 	int nin = v_thorough ? 8 : 3;
 	int ngz = v_thorough ? 3 : 2;
 	int F = v_thorough ? 2 : 1;
+	static const int qsel[3] = { 1, 2, 5 }; /* quick: a, abcab, 00*8+a */
 	for (int ii = 0; ii < nin; ii++)
 		for (int level = 0; level <= 3; level++)
 			for (int gi = 0; gi < ngz; gi++)
@@ -703,38 +21,9 @@ static void deflate_part(void)
 						continue;
 					if (nfail > 20 || v_deadline_hit())
 						return;
-					/* quick: inputs 1,2,5,7 of the list (a, abcab, 00*8+a, abc*6) */
-					static const int qsel[4] = { 1, 2, 5, 5 };
 					int di = v_thorough ? ii : qsel[ii];
-					DIN = din[di].p;
-					DINLEN = din[di].len;
-					DLEVEL = level;
-					DGZ = v_thorough ? gzs_t[gi] : gzs_q[gi];
-					DLBS = lvl_min[level];
 					int cpu = v_thorough ? cpus_q[ci] : cpus_q[(ii + level + gi) % 3];
-					cpu_set_level(cpu);
-					snprintf(ctxdesc, sizeof ctxdesc, "input=%s level=%d wrapper=%s level_buf=MIN cpu=%s flush_budget=%d", din[di].name, level, gz_name[DGZ], cpu_level_name[cpu], F);
-					def_model.image_size = def_img_size();
-					g_strict_free = 1;
-					def_reset(F);
-					struct ex_stats st = { 0 };
-					ex_run(&def_model, &st, v_thorough ? 3000000 : 400000);
-					g_strict_free = 0;
-					v_count("states", st.states);
-					v_count("transitions", st.transitions);
-					v_count("traces_validated_against_impl", st.terminals);
-					v_count("deflate_graphs", 1);
-					v_count("dedup_hits", st.dedup_hits);
-					v_max("max_depth", st.max_depth);
-					if (st.capped) {
-						v_count("graphs_capped", 1);
-						v_not_exhaustive("a deflate state graph hit its state cap or the deadline (largest completed bound is reported per graph in the counters)");
-					}
-					v_eval_n(st.transitions);
-					v_nontrivial(v_hash(ctxdesc, strlen(ctxdesc), 19));
-					if (level == 0 || st.capped)
-						v_sample("deflate graph %s: %llu states %llu transitions %llu terminal paths%s", ctxdesc, (unsigned long long)st.states, (unsigned long long)st.transitions,
-							 (unsigned long long)st.terminals, st.capped ? " (CAPPED)" : "");
+					deflate_graph(se_din[di].name, se_din[di].p, se_din[di].len, level, v_thorough ? gzs_t[gi] : gzs_q[gi], cpu, F, v_thorough ? 3000000 : 400000);
 				}
 }
 
